@@ -36,7 +36,10 @@ def manifest_dict(path):
         if b and b not in toks:
             toks.append(b)
     toks += [b"rule ", b"build ", b"subninja ", b"include ", b"default ", b"pool ", b"depth = ", b"command = ", b"dyndep = ", b"|@ ", b"$\n", b"${in}",
-             b"phony", b"\0", b"ninja_dyndep_version = 1\n", b"restat = 1", b"depfile = ", b"deps = gcc", b"generator = 1", b"rspfile = "]
+             b"phony", b"\0", b"ninja_dyndep_version = 1\n", b"restat = 1", b"depfile = ", b"deps = gcc", b"generator = 1", b"rspfile = ",
+             # the file names of the host manifests of fuzz_dyndep / fuzz_manifest: a dyndep file can only say something new
+             # about the graph by naming its files (including the dyndep file itself)
+             b"dd", b"out2", b"imp", b"other", b"in2", b"ddin", b"src", b"out", b"build.ninja", b"a.ninja", b": dyndep", b" | ", b" || "]
     with open(path, "w") as f:
         for t in toks:
             f.write('"' + "".join("\\x%02x" % c for c in t) + '"\n')
